@@ -61,7 +61,8 @@ def mutStep (b : Bits) (toks : List String) : Option (Except Err Bits) :=
 def runSeq (b : Bits) : List (List String) → List String → Option (List String)
   | [], acc => some acc.reverse
   | st :: rest, acc =>
-    match mutStep b st with
+    -- the token `self` denotes the target vector itself as right-hand side (`b[::-1] = b`): Bits(v) copies it first
+    match mutStep b (st.map fun t => if t = "self" then "b" ++ fmtBits b else t) with
     | none => none
     | some (.error _) => some ("ERR" :: acc).reverse
     | some (.ok b') => runSeq b' rest (fmtBits b' :: acc)
